@@ -265,18 +265,19 @@ struct EnvEngine : Engine {
 			a = {"dconv", "--locale", locs[r.below(8)], "-f", "%a %d %b %Y | %A %B", rdate(r)};
 			p.par["needs_locale_file"] = "1";
 		} else {
-			/* unspecified fields are determined by --base alone */
+			/* unspecified fields are determined by --base alone: every tool that takes --base */
 			std::string base = r.chance(1, 2) ? rdate(r) : rdt(r);
-			unsigned b = (unsigned)r.below(6);
-			int m = (int)r.range(1, 12), d = (int)r.range(1, 28);
-			char v[32];
+			unsigned b = (unsigned)r.below(14);
+			int m = (int)r.range(1, 12), d = (int)r.range(1, 28), m2 = (int)r.range(1, 12), d2 = (int)r.range(1, 28);
+			char v[32], v2[32];
+			snprintf(v, sizeof(v), "%02d-%02d", m, d);
+			snprintf(v2, sizeof(v2), "%02d-%02d", m2, d2);
 			switch (b) {
 			case 0:
 				snprintf(v, sizeof(v), "%02d %s", d, english().amo[m - 1].c_str());
 				a = {"dconv", "--base", base, "-i", "%d %b", "-f", "%F %a", v};
 				break;
 			case 1:
-				snprintf(v, sizeof(v), "%02d-%02d", m, d);
 				a = {"dconv", "--base", base, "-i", "%m-%d", "-f", "%FT%T", v};
 				break;
 			case 2:
@@ -290,7 +291,7 @@ struct EnvEngine : Engine {
 				snprintf(v, sizeof(v), "%02d", d);
 				a = {"dadd", "--base", base, "-i", "%d", "-f", "%F", v, "+1mo"};
 				break;
-			default: {
+			case 5: {
 				/* the expression and the lines both leave the year to the base */
 				snprintf(v, sizeof(v), "<%s %02d", english().amo[m - 1].c_str(), d);
 				a = {"dgrep", "--base", base, "-i", "%b %d", v};
@@ -302,6 +303,38 @@ struct EnvEngine : Engine {
 				}
 				break;
 			}
+			case 6:
+				/* leading time fields left to the base */
+				snprintf(v, sizeof(v), "%02d:%02d", (int)r.below(60), (int)r.below(60));
+				a = {"dconv", "--base", base, "-i", "%M:%S", "-f", "%FT%T", v};
+				break;
+			case 7:
+				snprintf(v, sizeof(v), "%02d", (int)r.below(60));
+				a = {"dconv", "--base", base, "-i", "%S", "-f", "%T", v};
+				break;
+			case 8:
+				a = {"ddiff", "--base", base, "-i", "%m-%d", v, v2, "-f", "%d"};
+				break;
+			case 9:
+				snprintf(v, sizeof(v), "%02d/%02d/%02d", d, m, (int)r.below(100));
+				snprintf(v2, sizeof(v2), "%02d/%02d/%02d", d2, m2, (int)r.below(100));
+				a = {"ddiff", "--base", base, "-i", "%d/%m/%y", v, v2, "-f", "%d"};
+				break;
+			case 10:
+				a = {"dround", "--base", base, "-i", "%m-%d", "-f", "%F", v, "Mon"};
+				break;
+			case 11:
+				snprintf(v2, sizeof(v2), "%02d-%02d", m, d + 3 > 28 ? 28 : d + 3);
+				a = {"dseq", "--base", base, "-i", "%m-%d", "-f", "%F", v, v2};
+				break;
+			case 12:
+				a = {"dtest", "--base", base, "-i", "%m-%d", v, "--lt", v2};
+				break;
+			default:
+				p.has_input = true;
+				p.input = std::string(v) + "\n" + v2 + "\n";
+				a = {"dadd", "--base", base, "-i", "%m-%d", "-f", "%F", "+1d"};
+				break;
 			}
 			p.par["with_base"] = "1";
 		}
